@@ -334,6 +334,11 @@ def where(path, node=None, fn=None):
     return s
 
 
+def tempfile_dir():
+    import tempfile
+    return tempfile.mkdtemp(prefix="hpbf-ev-")
+
+
 def load_known():
     p = os.path.join(VERIF, "known_findings.json")
     with open(p) as fh:
@@ -363,9 +368,11 @@ def finish(res, tier, t0, level="other", explanation="", checker_cmd="", extra_c
             knownhits.append((o, known[k]))
         else:
             viol.append(o)
-    os.makedirs(os.path.join(VERIF, "evidence", "replay"), exist_ok=True)
+    scratch_run = bool(os.environ.get("HPBF_NO_EVIDENCE"))   # a run against a mutated scratch copy
+    evdir = os.path.join(VERIF, "evidence") if not scratch_run else tempfile_dir()
+    os.makedirs(os.path.join(evdir, "replay"), exist_ok=True)
     # stale replay records of this property
-    for f in glob.glob(os.path.join(VERIF, "evidence", "replay", f"{prop}-*.json")):
+    for f in glob.glob(os.path.join(evdir, "replay", f"{prop}-*.json")):
         try:
             os.remove(f)
         except OSError:
@@ -391,7 +398,7 @@ def finish(res, tier, t0, level="other", explanation="", checker_cmd="", extra_c
         print(f"KNOWN-FINDING: property={prop} {o.full_key()} at {o.where}: {kf.get('what', o.msg)}")
     nrep = 0
     for i, o in enumerate(viol):
-        rp = os.path.join(VERIF, "evidence", "replay", f"{prop}-{i}.json")
+        rp = os.path.join(evdir, "replay", f"{prop}-{i}.json")
         with open(rp, "w") as fh:
             json.dump({"property": prop, "rule": o.rule, "key": o.full_key(), "where": o.where,
                        "message": o.msg, "detail": o.detail}, fh, indent=1, default=str)
@@ -431,8 +438,11 @@ def finish(res, tier, t0, level="other", explanation="", checker_cmd="", extra_c
         "wall_s": round(time.time() - t0, 3),
         "violations": len(viol),
     }
-    with open(os.path.join(VERIF, "evidence", f"{prop}.json"), "w") as fh:
+    with open(os.path.join(evdir, f"{prop}.json"), "w") as fh:
         json.dump(ev, fh, indent=1, default=str)
+    if scratch_run:
+        import shutil
+        shutil.rmtree(evdir, ignore_errors=True)
     print(f"== {prop}: {len(res.obs)} obligations, {sum(1 for o in res.obs if o.ok)} discharged, "
           f"{len(viol)} violation(s), {len(seen)} known finding(s), {ev['wall_s']} s")
     return 1 if viol else 0
